@@ -165,6 +165,9 @@ def scenarios(tier):
     S.append(mk("deferred-gets1-fine0", cfg("deferred", 0, 1 if q else 2, (0,), gets=G1), max_depth=100, max_states=500000))
     S.append(mk("deferred-gets2a-fine0", cfg("deferred", 0, 1, (0,), gets=G2[:1]), max_depth=100, max_states=500000))
     S.append(mk("deferred-gets2b-fine0", cfg("deferred", 0, 2, (0,), gets=G2[1:]), max_depth=100, max_states=500000))
+    # several get_message() Deferreds outstanding when the wormhole closes (more gets than messages), and some issued after closed
+    G5 = [[("get", "message"), ("get", "message"), ("get", "message"), ("get", "message"), ("get_late", "message"), ("get_late", "message")]]
+    S.append(mk("deferred-gets5-many-outstanding", cfg("deferred", 0, 1, (0,), gets=G5), max_depth=100, max_states=500000))
     S.append(mk("deferred-gets3-turns", cfg("deferred", 0, 0, (0,), gets=G3, explored=TURN, close0=False), max_depth=120, max_states=400000))
     S.append(mk("deferred-gets4-turns", cfg("deferred", 0, 0, (0,), gets=G4, explored=TURN, close0=False), max_depth=120, max_states=400000))
     S.append(mk("deferred-turns-dev2", cfg("deferred", 1, 2, (0, 1), drops=(1, 1), explored=TURN, peer_close=True), dev_bound=2, max_depth=250))
